@@ -15,6 +15,9 @@ THEOREMS = ["C04_physical", "C04_mirror", "C04_ram", "C04_unmapped", "C04_advanc
             "C04_add_0", "C04_add_add", "C04_map_covers", "C04_lorom", "C04_hirom",
             "C04_live_lorom", "C04_live_hirom", "C04_advance_sub", "C04_add_0_sub", "C04_add_add_sub",
             "C04_hirom_not_covers", "C04_hirom_covers_sub", "C04_hirom_advance", "C04_advance_any"]
+# model-tie modules whose correspondence is part of this property's check: user-defined mappings enter through the
+# `.map` statement, whose reading (numbers in decimal / 0x / 0b, attribute pairs) is the parser's
+TIES = ['PARSE']
 RULE = ("Address.physical and Address.__add__ on the built-in LoROM/HiROM buses (every bank x boundary "
         "offsets x boundary increments) and on randomly drawn Bus.map configurations (32K/64K windows, "
         "mirrors, RAM, overlaps); a case is non-trivial when the address is mapped; distinct by "
